@@ -31,39 +31,40 @@ type CallAssert struct {
 }
 
 type Contract struct {
-	Pkg         string // package path
-	Key         string // e.g. "(*ProofD).correctResponseSizes" or "HashCommit"
-	File        string
-	Line        int
-	Props       []string
-	Safety      []string // properties the safety obligations are charged to (default Props)
-	Requires    []Clause
-	Ensures     []Clause
-	MustFail    []Clause
-	Modifies    []ModLoc
-	ModAny      bool // no modifies clause given: treated as "modifies everything reachable" for callers (havoc all)
-	ModGiven    bool
-	LoopInv     map[int][]Clause
-	LoopMod     map[int][]ModLoc
-	Asserts     []CallAssert
-	Applies     []Apply
-	Ghosts      []CallAssert // ghost at <callee> name: expr  (value recorded after every matching call)
-	Trusted     string
-	NoPanic     bool // default true: safety obligations generated
-	Fresh       bool // result is freshly allocated (shorthand)
-	Pure        bool
-	Assumes     []Clause // assumed at entry but NOT required from callers (listed as assumptions)
-	Received    []Clause // assumed of every value received from a channel ($v)
-	Restricted  string   // restricted <reason>: the pre-conditions cut off part of the function; return sites proved unreachable are accepted as long as one return is reachable
-	DeadReturns []int    // dead return <n>: the n-th return statement (source order) must be unreachable for every input
-	Dead        []string // dead after <callee>: return sites behind a call of this callee must be unreachable under the pre-conditions
-	Inline      bool
-	Uses        []string
-	Missing     bool
-	Premises    []Clause // post-conditions assumed by callers but not proved (cryptographic premises), listed as assumptions
-	Nonlinear   bool
-	AssumeFrame string
-	Fn          *ssa.Function
+	Pkg             string // package path
+	Key             string // e.g. "(*ProofD).correctResponseSizes" or "HashCommit"
+	File            string
+	Line            int
+	Props           []string
+	Safety          []string // properties the safety obligations are charged to (default Props)
+	Requires        []Clause
+	Ensures         []Clause
+	MustFail        []Clause
+	Modifies        []ModLoc
+	ModAny          bool // no modifies clause given: treated as "modifies everything reachable" for callers (havoc all)
+	ModGiven        bool
+	LoopInv         map[int][]Clause
+	LoopMod         map[int][]ModLoc
+	LoopAssumeFrame map[int]string // loop N assumeframe <reason>
+	Asserts         []CallAssert
+	Applies         []Apply
+	Ghosts          []CallAssert // ghost at <callee> name: expr  (value recorded after every matching call)
+	Trusted         string
+	NoPanic         bool // default true: safety obligations generated
+	Fresh           bool // result is freshly allocated (shorthand)
+	Pure            bool
+	Assumes         []Clause // assumed at entry but NOT required from callers (listed as assumptions)
+	Received        []Clause // assumed of every value received from a channel ($v)
+	Restricted      string   // restricted <reason>: the pre-conditions cut off part of the function; return sites proved unreachable are accepted as long as one return is reachable
+	DeadReturns     []int    // dead return <n>: the n-th return statement (source order) must be unreachable for every input
+	Dead            []string // dead after <callee>: return sites behind a call of this callee must be unreachable under the pre-conditions
+	Inline          bool
+	Uses            []string
+	Missing         bool
+	Premises        []Clause // post-conditions assumed by callers but not proved (cryptographic premises), listed as assumptions
+	Nonlinear       bool
+	AssumeFrame     string
+	Fn              *ssa.Function
 }
 
 type LemmaUse struct {
@@ -466,6 +467,12 @@ func LoadContracts(cs *ContractSet, pkgPath, file string) error {
 						return fail(err)
 					}
 					cur.LoopMod[n] = append(cur.LoopMod[n], ml...)
+				case "assumeframe":
+					// loop N assumeframe <reason>: the declared frame of this loop is assumed (listed), not checked at its writes
+					if cur.LoopAssumeFrame == nil {
+						cur.LoopAssumeFrame = map[int]string{}
+					}
+					cur.LoopAssumeFrame[n] = body
 				default:
 					return fail(fmt.Errorf("bad loop clause kind %q", f[1]))
 				}
